@@ -39,6 +39,26 @@ CHECKS["C19"] = dict(
     technique="deterministic simulation: simulated disk with crash-point enumeration (crash-before/after every I/O call, torn writes) and injected I/O errors, checked against a record-stream reference model",
 )
 
+CHECKS["C01"] = dict(
+    engine="rngsim",
+    category="exploration",
+    text="The nonce exists only behind the entropy seam, so signing is run under a scripted random source: histories of signatures by 1-4 signers in all three API modes with tapes of boundary draws (0 - incl. several in a row -, 1, n-1, n-2), "
+    "repeated draws across signatures, and digests crafted from the known next draw to force the s=0 retry, low-S negation and short / high-bit r,s. Each signature is checked by the library's verifiers (compressed and uncompressed key), "
+    "an independent ECDSA implementation, OpenSSL and a BIP66 checker; the history is checked for shared r between signatures whose (key, digest) differ while the source did not repeat; retry loops must end within 4 draws after the last injected fault.",
+    design_ref="DESIGN.md §4.1, §5 C01",
+    note="Trusted: /verif/ref/secp256k1.py, /verif/ref/ecdsa_der.py, OpenSSL. No scheduler or clock in this engine: the only simulated nondeterminism is the random source; inputs (keys, messages) are seeded. r == 0 retry is unreachable by construction.",
+    technique="deterministic simulation of the entropy source (scripted boundary / repeated / crafted nonce draws behind the secrets seam) with history oracle for nonce reuse and bounded-liveness of retry loops",
+)
+CHECKS["C03"] = dict(
+    engine="rngsim",
+    category="exploration",
+    text="Scoped to the clauses of C03 that have a seam: key generation (API and `bits key` CLI in-process) is run under a scripted random source returning 0, 1, n-1, n-2, mid-range, repeated values and pairs differing only in high or low bits; "
+    "every generated key must lie in [1, n-1] and be accepted by privkey_int, its public keys (both forms) must equal the reference k*G and decode back, distinct draws must give distinct keys, and generation must terminate shortly after the last zero draw.",
+    design_ref="DESIGN.md §4.1, §5 C03",
+    note="Only the key-generation and 'public key = kG' clauses are decided; the group-law clauses over all points/scalars are pure functions and are not claimed by this technique (exercised only incidentally through k*G). Trusted: /verif/ref/secp256k1.py.",
+    technique="deterministic simulation of the entropy source (scripted boundary / repeated / paired draws) around key generation; scoped claim",
+)
+
 NA = {
     "C02": "ecmath.verify / sig_verify / point / ensure_sig_low_s read no RNG, clock, stream, file or shared state: acceptance is a pure function of (pubkey, message, signature bytes); mutated tuples are input generation, not a fault schedule.",
     "C04": "tx_deser is a pure function of the buffer; 'whatever bytes follow' is a second input, not a fault on a seam the code reads from.",
